@@ -105,9 +105,17 @@ func OracleC02(r *Run) []Problem {
 			}
 		}
 	}
-	// quiescence: a healthy attached input has received everything
-	if in, _ := r.W.Holder("input"); in != nil {
-		// (the world has been wound down; use the recorded state instead)
+	// a line that did not arrive within Wait: the bytes above have been judged
+	// (a gap is a violation already).  If it arrived only after the follow-up
+	// line was entered, delivery waited for further input; if nothing arrived
+	// at all the run is inconclusive.
+	if r.StuckLine > 0 {
+		if pos >= r.StuckLine {
+			add("delivery-waited-for-further-input", "line %d was delivered only after a further line had been entered (%v after it was entered itself)", r.StuckLine, Wait)
+		} else {
+			out = append(out, Problem{"HARNESS", "line-stuck", fmt.Sprintf("line %d never arrived, even after a follow-up line; nothing to judge", r.StuckLine)})
+		}
+		return out
 	}
 	if r.HealthyInputAtEnd && pos != len(E) {
 		add("lines-undelivered", "at the end of the history a healthy input is attached but only %d of %d entered lines have been delivered", pos, len(E))
